@@ -2,11 +2,11 @@ package sym
 
 import (
 	"fmt"
-	"os"
-	"strings"
 	"go/types"
+	"os"
 	"runtime/debug"
 	"sort"
+	"strings"
 	"sync"
 	"time"
 
